@@ -158,7 +158,7 @@ func runC01(c *Ctx) {
 		var retTrue []ssa.Instruction
 		for _, in := range find(f2, isExit) {
 			r := in.(*ssa.Return)
-			if b, ok := ir.ConstBool(r.Results[0]); !ok || b {
+			if b, ok := ir.ConstBool(ir.RetVal(r, 0)); !ok || b {
 				retTrue = append(retTrue, in)
 			}
 		}
